@@ -12,6 +12,7 @@ use std::rc::Rc;
 
 use fe2o3_amqp::acceptor::{LinkAcceptor, LinkEndpoint, SessionAcceptor};
 use fe2o3_amqp::link::receiver::CreditMode;
+use fe2o3_amqp::link::delivery::DeliveryInfo;
 use fe2o3_amqp::link::RecvError;
 use fe2o3_amqp::types::definitions::ReceiverSettleMode;
 use fe2o3_amqp::types::messaging::Body;
@@ -38,7 +39,9 @@ enum Mode {
 
 #[derive(Default)]
 struct AppLog {
-    received: Vec<Msg>,
+    /// None: a delivery whose payload did not decode (recv failed with MessageDecode and the
+    /// application rejected it)
+    received: Vec<Option<Msg>>,
     error: Option<String>,
     transfer_limit_error: bool,
     done: bool,
@@ -46,6 +49,10 @@ struct AppLog {
     drains: u32,
     /// deliveries the scripted sender has completely written
     peer_sent: u32,
+    /// the scripted sender has written its answer to the drain request
+    drain_answered: bool,
+    /// the application stopped waiting for that answer
+    drain_wait_given_up: bool,
     /// the application lowered the credit (at a quiescent moment) to less than the number of
     /// deliveries that had arrived within the earlier credit and that it had not read yet
     credit_cut_below_backlog: bool,
@@ -74,13 +81,16 @@ struct St {
     dispositions: Vec<V>,
     detached: Option<V>,
     next_uid: u64,
-    sent: Vec<Msg>,
+    sent: Vec<Option<Msg>>,
+    /// one in `bad_den` deliveries carries a payload that does not decode (0: none)
+    bad_den: u32,
     rcv_second: bool,
     unsettled_ids: Vec<u32>,
     /// the sender wrote a flow carrying its delivery-count while deliveries it had sent
     /// earlier may still have been queued inside the receiving endpoint
     restated: bool,
     may_restate: bool,
+    cap_before_drain: bool,
     log: Rc<RefCell<AppLog>>,
 }
 
@@ -88,6 +98,14 @@ struct St {
 /// a sender's flow (delivery-count) at once, while transfers that preceded it on the wire are
 /// still queued for the link; they are then counted on top of the restated value.
 ///
+/// The precondition is observed, not assumed: at the moment the scripted sender writes such a
+/// flow, some delivery it has completed has not been returned by `recv` yet (it is in flight or
+/// queued inside the endpoint). A flow written when the application has read everything
+/// cannot be overtaken by anything.
+fn unread_backlog(st: &St) -> bool {
+    (st.log.borrow().received.len() as u32) < st.completed
+}
+
 /// Second signature, same root (the link's credit is consumed when the application reads a
 /// delivery, not when it arrives): the application lowers the credit while deliveries that
 /// arrived within the earlier credit wait unread; they are then charged to the new credit.
@@ -192,7 +210,12 @@ fn available_credit(st: &St) -> u32 {
 async fn send_delivery(peer: &mut Peer, st: &mut St, settled: bool) {
     st.next_uid += 1;
     let msg = msgs::gen_message(st.next_uid, 120, 2);
-    let payload = msgs::encode(&msg);
+    let bad = st.bad_den > 0 && choice(st.bad_den) == 0;
+    // an amqp-value section announcing a 5-byte string and carrying one byte
+    let payload = if bad { vec![0x00, 0x53, 0x77, 0xa1, 0x05, b'h'] } else { msgs::encode(&msg) };
+    if bad {
+        sim::fault("undecodable-delivery");
+    }
     let nframes = (1 + choice(3) as usize).min(payload.len().max(1));
     let id = st.ps.next_delivery_id;
     st.ps.next_delivery_id = id.wrapping_add(1);
@@ -229,7 +252,7 @@ async fn send_delivery(peer: &mut Peer, st: &mut St, settled: bool) {
     st.dc_snd = st.dc_snd.wrapping_add(1);
     st.completed += 1;
     st.log.borrow_mut().peer_sent += 1;
-    st.sent.push(msg);
+    st.sent.push(if bad { None } else { Some(msg) });
     if !settled {
         st.unsettled_ids.push(id);
     }
@@ -266,6 +289,62 @@ async fn quiesce(peer: &mut Peer, st: &mut St, net: &crate::net::NetHandle) -> b
     }
 }
 
+/// Manual credit policy, run after every delivery the application has got hold of
+#[allow(clippy::too_many_arguments)]
+async fn after_delivery(
+    r: &mut Receiver,
+    log: &Rc<RefCell<AppLog>>,
+    mode: Mode,
+    manual_credits: &[u32],
+    drain_after: Option<usize>,
+    net: &crate::net::NetHandle,
+    manual_idx: &mut usize,
+    since_credit: &mut u32,
+    cur_credit: &mut u32,
+) -> bool {
+    if mode != Mode::Manual {
+        return true;
+    }
+    let n = log.borrow().received.len();
+    if Some(n) == drain_after {
+        log.borrow_mut().drains += 1;
+        let _ = r.drain().await;
+        // after the sender has answered the drain and everything it had sent under the
+        // old credit has arrived (simulator-proven: nothing in flight, nothing runnable),
+        // issue fresh credit - a smaller credit while transfers are in flight would turn
+        // them into overruns, and fresh credit that crosses the sender's answer would be
+        // worth less to the sender than the application thinks, by the application's own doing
+        let mut waited = 0;
+        while !log.borrow().drain_answered && waited < 30_000 {
+            sim::sleep_ms(10).await;
+            waited += 10;
+        }
+        if !log.borrow().drain_answered {
+            log.borrow_mut().drain_wait_given_up = true;
+        }
+        world::quiesce_pair(net).await;
+        *since_credit = *cur_credit;
+    }
+    if *since_credit >= *cur_credit && *manual_idx < manual_credits.len() {
+        *cur_credit = manual_credits[*manual_idx];
+        *manual_idx += 1;
+        *since_credit = 0;
+        {
+            let mut l = log.borrow_mut();
+            l.credit_calls.push(*cur_credit);
+            let backlog = l.peer_sent.saturating_sub(l.received.len() as u32);
+            if backlog > *cur_credit {
+                l.credit_cut_below_backlog = true;
+                sim::probe("credit-lowered-below-unread-deliveries");
+            }
+        }
+        if r.set_credit(*cur_credit).await.is_err() {
+            return false;
+        }
+    }
+    true
+}
+
 fn spawn_app(mut r: Receiver, log: Rc<RefCell<AppLog>>, mode: Mode, dispose_kind: u32, batch: usize, manual_credits: Vec<u32>, drain_after: Option<usize>, net: crate::net::NetHandle) {
     sim::spawn("app-receiver", async move {
         let mut pending = Vec::new();
@@ -282,64 +361,23 @@ fn spawn_app(mut r: Receiver, log: Rc<RefCell<AppLog>>, mode: Mode, dispose_kind
         }
         let disposer = r.disposer();
         loop {
-            match r.recv::<Body<Value>>().await {
+            let info: DeliveryInfo = match r.recv::<Body<Value>>().await {
                 Ok(d) => {
-                    log.borrow_mut().received.push(d.message().clone());
+                    log.borrow_mut().received.push(Some(d.message().clone()));
+                    DeliveryInfo::from(&d)
+                }
+                Err(RecvError::MessageDecode(e)) => {
+                    // a recoverable error: the delivery is complete, the application disposes of it
+                    log.borrow_mut().received.push(None);
+                    sim::probe("undecodable-delivery-reported");
                     since_credit += 1;
-                    match dispose_kind {
-                        // 0: accept each; 1: batches via accept_all; 2: alternate outcomes; 3: via the disposer; 4: never
-                        0 => {
-                            let _ = r.accept(&d).await;
-                        }
-                        1 => {
-                            pending.push(d);
-                            if pending.len() >= batch {
-                                let _ = r.accept_all(pending.drain(..).collect::<Vec<_>>().iter()).await;
-                            }
-                        }
-                        2 => {
-                            if since_credit % 2 == 0 {
-                                let _ = r.release(&d).await;
-                            } else {
-                                let _ = r.accept(&d).await;
-                            }
-                        }
-                        3 => {
-                            let _ = disposer.accept(&d).await;
-                        }
-                        _ => {}
+                    if mode != Mode::Overrun {
+                        let _ = r.reject(e.info, None).await;
                     }
-                    if mode == Mode::Manual {
-                        let n = log.borrow().received.len();
-                        if Some(n) == drain_after {
-                            log.borrow_mut().drains += 1;
-                            let _ = r.drain().await;
-                            // after the sender has answered the drain and everything it had sent under the
-                            // old credit has arrived (simulator-proven: nothing in flight, nothing runnable),
-                            // issue fresh credit - a smaller credit while transfers are in flight would turn
-                            // them into overruns by the application's own doing
-                            sim::sleep_ms(50).await;
-                            world::quiesce_pair(&net).await;
-                            since_credit = cur_credit;
-                        }
-                        if since_credit >= cur_credit && manual_idx < manual_credits.len() {
-                            cur_credit = manual_credits[manual_idx];
-                            manual_idx += 1;
-                            since_credit = 0;
-                            {
-                                let mut l = log.borrow_mut();
-                                l.credit_calls.push(cur_credit);
-                                let backlog = l.peer_sent.saturating_sub(l.received.len() as u32);
-                                if backlog > cur_credit {
-                                    l.credit_cut_below_backlog = true;
-                                    sim::probe("credit-lowered-below-unread-deliveries");
-                                }
-                            }
-                            if r.set_credit(cur_credit).await.is_err() {
-                                break;
-                            }
-                        }
+                    if !after_delivery(&mut r, &log, mode, &manual_credits, drain_after, &net, &mut manual_idx, &mut since_credit, &mut cur_credit).await {
+                        break;
                     }
+                    continue;
                 }
                 Err(e) => {
                     let mut l = log.borrow_mut();
@@ -347,6 +385,33 @@ fn spawn_app(mut r: Receiver, log: Rc<RefCell<AppLog>>, mode: Mode, dispose_kind
                     l.error = Some(format!("{:?}", e));
                     break;
                 }
+            };
+            since_credit += 1;
+            match dispose_kind {
+                // 0: accept each; 1: batches via accept_all; 2: alternate outcomes; 3: via the disposer; 4: never
+                0 => {
+                    let _ = r.accept(info).await;
+                }
+                1 => {
+                    pending.push(info);
+                    if pending.len() >= batch {
+                        let _ = r.accept_all(pending.drain(..).collect::<Vec<_>>()).await;
+                    }
+                }
+                2 => {
+                    if since_credit % 2 == 0 {
+                        let _ = r.release(info).await;
+                    } else {
+                        let _ = r.accept(info).await;
+                    }
+                }
+                3 => {
+                    let _ = disposer.accept(info).await;
+                }
+                _ => {}
+            }
+            if !after_delivery(&mut r, &log, mode, &manual_credits, drain_after, &net, &mut manual_idx, &mut since_credit, &mut cur_credit).await {
+                break;
             }
         }
         log.borrow_mut().done = true;
@@ -383,7 +448,7 @@ async fn script(
                     if limit.wrapping_sub(st.dc_snd) <= u32::MAX / 2 {
                         st.dc_snd = limit;
                     }
-                    st.restated = st.restated || st.completed > 0;
+                    st.restated = st.restated || unread_backlog(st);
                     st.stmts.push(DcStmt { value: st.dc_snd, completed_at: st.completed });
                     let mut f = st.ps.flow_args();
                     f.handle = Some(st.peer_handle);
@@ -394,14 +459,16 @@ async fn script(
                     st.grant = Some((st.dc_snd, 0, false));
                     sim::probe("drain-answered");
                     drain_answered = true;
+                    log.borrow_mut().drain_answered = true;
                     continue;
                 }
                 let mut avail = available_credit(st);
-                if let (Some(k), false) = (drain_after, drain_answered) {
-                    // the application will ask for a drain after k deliveries: a sender that
-                    // went further could not tell a credit reduction from an overrun
+                if let (Some(k), false, true) = (drain_after, drain_answered, st.cap_before_drain) {
+                    // the application will ask for a drain after k deliveries; this sender has no
+                    // more than k to send until then. (The other kind of sender goes on to use the
+                    // credit it has until it sees the drain request.)
                     avail = avail.min((k as u32).saturating_sub(st.completed));
-                    if avail == 0 && log.borrow().drains > 0 && !matches!(st.grant, Some((_, _, true))) {
+                    if avail == 0 && log.borrow().drain_wait_given_up {
                         // the drain request was superseded before the sender saw it
                         drain_answered = true;
                     }
@@ -409,7 +476,7 @@ async fn script(
                 if avail > 0 {
                     // sometimes restate the delivery-count first
                     if st.may_restate && choice(4) == 1 {
-                        st.restated = st.restated || st.completed > 0;
+                        st.restated = st.restated || unread_backlog(st);
                         st.stmts.push(DcStmt { value: st.dc_snd, completed_at: st.completed });
                         let mut f = st.ps.flow_args();
                         f.handle = Some(st.peer_handle);
@@ -537,8 +604,13 @@ fn check_received(st: &St, log: &Rc<RefCell<AppLog>>, expect: usize) {
         return;
     }
     for (k, (got, sent)) in l.received.iter().zip(st.sent.iter()).enumerate() {
-        if !msgs::same_message(got, sent) {
-            sim::violation("received-content", format!("delivery #{} differs from what was sent", k));
+        let same = match (got, sent) {
+            (Some(g), Some(x)) => msgs::same_message(g, x),
+            (None, None) => true,
+            _ => false,
+        };
+        if !same {
+            sim::violation("received-content", format!("delivery #{} differs from what was sent (decodable as received: {}, as sent: {})", k, got.is_some(), sent.is_some()));
             return;
         }
     }
@@ -571,11 +643,12 @@ fn draw_common() -> (Mode, CreditMode, bool, bool, u32, usize, Vec<u32>, Option<
 pub async fn run_client() {
     let (mode, credit_mode, auto_accept, rcv_second, dispose_kind, batch, manual_credits, drain_after, total, initial_dc) = draw_common();
     let settled_by_sender = choice(3) == 1;
+    let bad_den = pick(&[0u32, 0, 3, 6]);
     let ccfg = EndpointCfg::default_cfg();
     let (nab, nba, nd) = world::draw_net(true);
     sim::set_config(format!(
-        "side=client mode={:?} credit={:?} auto_accept={} rcv_second={} dispose={} batch={} manual={:?} drain_after={:?} total={} initial-dc={} presettled={} {}",
-        mode, credit_mode, auto_accept, rcv_second, dispose_kind, batch, manual_credits, drain_after, total, initial_dc, settled_by_sender, nd
+        "side=client mode={:?} credit={:?} auto_accept={} rcv_second={} dispose={} batch={} manual={:?} drain_after={:?} total={} initial-dc={} presettled={} undecodable=1/{} {}",
+        mode, credit_mode, auto_accept, rcv_second, dispose_kind, batch, manual_credits, drain_after, total, initial_dc, settled_by_sender, bad_den, nd
     ));
     sim::mark_nontrivial();
     let cvp = match peer::client_vs_peer(&ccfg, peer::open("peer", Some(65536), Some(255), None), nab, nba, Models::none()).await {
@@ -649,10 +722,12 @@ pub async fn run_client() {
         detached: None,
         next_uid: 50_000,
         sent: Vec::new(),
+        bad_den,
         rcv_second,
         unsettled_ids: Vec::new(),
         restated: false,
         may_restate: choice(4) == 1,
+        cap_before_drain: choice(3) != 0,
         log: log.clone(),
     };
     script(&mut peer, &mut st, &net, &log, mode, total, settled_by_sender, drain_after).await;
@@ -674,11 +749,12 @@ pub async fn run_client() {
 pub async fn run_listener() {
     let (mode, credit_mode, auto_accept, rcv_second, dispose_kind, batch, manual_credits, drain_after, total, initial_dc) = draw_common();
     let settled_by_sender = choice(3) == 1;
+    let bad_den = pick(&[0u32, 0, 3, 6]);
     let lcfg = EndpointCfg::default_cfg();
     let (nab, nba, nd) = world::draw_net(true);
     sim::set_config(format!(
-        "side=listener mode={:?} credit={:?} auto_accept={} rcv_second={} dispose={} batch={} manual={:?} drain_after={:?} total={} initial-dc={} presettled={} {}",
-        mode, credit_mode, auto_accept, rcv_second, dispose_kind, batch, manual_credits, drain_after, total, initial_dc, settled_by_sender, nd
+        "side=listener mode={:?} credit={:?} auto_accept={} rcv_second={} dispose={} batch={} manual={:?} drain_after={:?} total={} initial-dc={} presettled={} undecodable=1/{} {}",
+        mode, credit_mode, auto_accept, rcv_second, dispose_kind, batch, manual_credits, drain_after, total, initial_dc, settled_by_sender, bad_den, nd
     ));
     sim::mark_nontrivial();
     let pvl = match peer::peer_vs_listener(&lcfg, peer::open("peer", Some(65536), Some(255), None), nab, nba, Models::none()).await {
@@ -766,10 +842,12 @@ pub async fn run_listener() {
         detached: None,
         next_uid: 60_000,
         sent: Vec::new(),
+        bad_den,
         rcv_second,
         unsettled_ids: Vec::new(),
         restated: false,
         may_restate: choice(4) == 1,
+        cap_before_drain: choice(3) != 0,
         log: log.clone(),
     };
     // the flows the acceptor sent before the application configured the link
